@@ -369,6 +369,16 @@ func init() {
 				}
 				tr, raw := takeTrace()
 				// direct oracles
+				if err != nil && op.Xs[0].A == "get" {
+					// a lookup that failed - not found, a load fault, a parse error here or in a template it pulls in -
+					// leaves nothing behind under the name that was asked for
+					cache.mu.Lock()
+					_, nowRemembered := cache.m[resolved]
+					cache.mu.Unlock()
+					if nowRemembered && !remembered && fail == "" {
+						fail = "GetTemplate(" + strconv.Quote(name) + ") failed (" + clipS(err.Error()) + ") and yet something is remembered under " + resolved + ": the failure will not be retried"
+					}
+				}
 				for _, e := range raw {
 					if dev && (e[0] == 'G' || e[0] == 'P') && fail == "" {
 						fail = "development mode touched the cache: " + e
